@@ -680,6 +680,9 @@ pub fn expand(st: &Step, c: &mut Counters) -> Vec<Step> {
         for _ in 0..24 {
             specials.push(crate::dict::near_l_structured(&mut r));
         }
+        for _ in 0..24 {
+            specials.push(crate::dict::near_p_structured(&mut r));
+        }
         let n0 = specials.len();
         for i in 0..n0 {
             let mut b = specials[i];
